@@ -1377,8 +1377,8 @@ func cachedNormalize(dir, goarch string, tags []string) (map[string][]byte, []st
 			}
 		}
 		// keep the cache small
-		if list, err := os.ReadDir(cdir); err == nil && len(list) > 400 {
-			for _, e := range list[:len(list)-300] {
+		if list, err := os.ReadDir(cdir); err == nil && len(list) > 3000 {
+			for _, e := range list[:len(list)-2500] {
 				os.Remove(filepath.Join(cdir, e.Name()))
 			}
 		}
